@@ -30,6 +30,21 @@ type SpecEnv struct {
 	clauseSrc  string
 	loop       *loopInfo
 	idxState   *State
+	pol        int         // polarity of the position being evaluated: +1, -1, 0 (unknown)
+	rec        *[]quantRec // where positively occurring universal quantifiers are recorded
+	inQuant    bool
+}
+
+// quantRec: a universally quantified sub-formula (text) occurring positively in a clause, with its
+// bound variable and body, so that the engine can instantiate/skolemize it itself.
+type quantRec struct {
+	text, bound, body string
+}
+
+func (env *SpecEnv) flipped(to int) *SpecEnv {
+	n := *env
+	n.pol = to
+	return &n
 }
 
 // rangeIndex finds the hidden index cell of a `for … range` loop (robust against renaming of the
@@ -70,9 +85,15 @@ func (fx *FuncExec) specFail(env *SpecEnv, f string, a ...any) {
 func (fx *FuncExec) evalBool(env *SpecEnv, c Clause) string {
 	e2 := *env
 	e2.clauseSrc = c.Src + " `" + c.Text + "`"
+	var recs []quantRec
+	e2.pol = 1
+	e2.rec = &recs
 	v := fx.evalSpec(&e2, c.Expr)
 	if v.Sort != SBool {
 		fx.specFail(&e2, "expression is not boolean (sort %s)", v.Sort)
+	}
+	if len(recs) > 0 {
+		fx.quantsOf[v.S] = recs
 	}
 	return v.S
 }
@@ -183,6 +204,10 @@ func (fx *FuncExec) evalSpec(env *SpecEnv, e ast.Expr) Val {
 		}
 		fx.specFail(env, "cannot slice sort %s", base.Sort)
 	case *ast.UnaryExpr:
+		if x.Op == token.NOT {
+			v := fx.evalSpec(env.flipped(-env.pol), x.X)
+			return Val{T: v.T, Sort: SBool, S: not(v.S)}
+		}
 		v := fx.evalSpec(env, x.X)
 		switch x.Op {
 		case token.NOT:
@@ -197,8 +222,12 @@ func (fx *FuncExec) evalSpec(env *SpecEnv, e ast.Expr) Val {
 			return Val{T: types.NewPointer(l.T), Loc: l}
 		}
 	case *ast.BinaryExpr:
-		a := fx.evalSpec(env, x.X)
-		b := fx.evalSpec(env, x.Y)
+		benv := env
+		if x.Op == token.EQL || x.Op == token.NEQ {
+			benv = env.flipped(0)
+		}
+		a := fx.evalSpec(benv, x.X)
+		b := fx.evalSpec(benv, x.Y)
 		a, b = fx.coerceNil(a, b)
 		if a.Sort != b.Sort && !(x.Op == token.EQL || x.Op == token.NEQ) {
 			fx.specFail(env, "operands of %v have sorts %s and %s", x.Op, a.Sort, b.Sort)
@@ -674,27 +703,46 @@ func (fx *FuncExec) evalSpecCall(env *SpecEnv, x *ast.CallExpr) Val {
 		v := fx.evalSpec(env, x.Args[0])
 		return Val{T: types.Typ[types.Int], Sort: SInt, S: "(s.cap " + v.S + ")"}
 	case "imp":
-		return bv(imp(fx.evalSpec(env, x.Args[0]).S, fx.evalSpec(env, x.Args[1]).S))
+		return bv(imp(fx.evalSpec(env.flipped(-env.pol), x.Args[0]).S, fx.evalSpec(env, x.Args[1]).S))
 	case "iff":
-		return bv(eq(fx.evalSpec(env, x.Args[0]).S, fx.evalSpec(env, x.Args[1]).S))
+		return bv(eq(fx.evalSpec(env.flipped(0), x.Args[0]).S, fx.evalSpec(env.flipped(0), x.Args[1]).S))
 	case "ite":
-		c := fx.evalSpec(env, x.Args[0])
+		c := fx.evalSpec(env.flipped(0), x.Args[0])
 		a, b := fx.evalSpec(env, x.Args[1]), fx.evalSpec(env, x.Args[2])
 		a, b = fx.coerceNil(a, b)
 		return Val{T: a.T, Sort: a.Sort, S: ite(c.S, a.S, b.S)}
 	case "forall", "exists":
 		v := x.Args[0].(*ast.Ident).Name
-		bn := fmt.Sprintf("%s!%d", v, fx.em.n)
+		bn := fmt.Sprintf("%s!%d!", v, fx.em.n)
 		fx.em.n++
-		lo := fx.evalSpec(env, x.Args[1])
-		hi := fx.evalSpec(env, x.Args[2])
+		lo := fx.evalSpec(env.flipped(0), x.Args[1])
+		hi := fx.evalSpec(env.flipped(0), x.Args[2])
 		e2 := env.with(v, Val{T: types.Typ[types.Int], Sort: SInt, S: bn})
+		wasIn := env.inQuant
+		e2.inQuant = true
 		body := fx.evalSpec(e2, x.Args[3])
 		rng := and(fmt.Sprintf("(<= %s %s)", lo.S, bn), fmt.Sprintf("(< %s %s)", bn, hi.S))
 		if name == "forall" {
-			return bv(fmt.Sprintf("(forall ((%s Int)) %s)", bn, imp(rng, body.S)))
+			text := fmt.Sprintf("(forall ((%s Int)) %s)", bn, imp(rng, body.S))
+			if env.pol == 1 && env.rec != nil && !wasIn {
+				*env.rec = append(*env.rec, quantRec{text: text, bound: bn, body: imp(rng, body.S)})
+			}
+			return bv(text)
 		}
 		return bv(fmt.Sprintf("(exists ((%s Int)) %s)", bn, and(rng, body.S)))
+	case "seqput":
+		// seqput(w, at, s): the sequence w with the elements of slice s written at positions at..at+len(s)
+		w := fx.evalSpec(env, x.Args[0])
+		at := fx.evalSpec(env, x.Args[1])
+		s := fx.evalSpec(env, x.Args[2])
+		if !strings.HasPrefix(string(w.Sort), "(Array Int ") || s.Sort != SSlice {
+			fx.specFail(env, "seqput(seq, int, slice)")
+		}
+		nw := fx.em.FreshRaw("seqput", string(w.Sort))
+		el := fx.indexVal(env, s, Val{Sort: SInt, S: "(- j " + at.S + ")"})
+		fx.em.Assert(fmt.Sprintf("(forall ((j Int)) (! (= (select %s j) (ite (and (<= %s j) (< j (+ %s (s.len %s)))) %s (select %s j))) :pattern ((select %s j))))",
+			nw, at.S, at.S, s.S, el.S, w.S, nw))
+		return Val{Sort: w.Sort, S: nw}
 	case "forallkey":
 		// forallkey(k, m, P): P holds for every key k present in map m
 		v := x.Args[0].(*ast.Ident).Name
